@@ -87,8 +87,15 @@ Bits(T) == CASE T \in {"u8", "i8"} -> 8 [] T \in {"u16", "i16"} -> 16 [] T \in {
              [] T \in {"u64", "i64", "usize", "isize"} -> 64
 Pow2(n) == CASE n = 7 -> P7 [] n = 8 -> P8 [] n = 15 -> P15 [] n = 16 -> P16 [] n = 31 -> P31 [] n = 32 -> P32
              [] n = 63 -> P63 [] n = 64 -> P64
-MaxN(T) == Pos(DSub(Pow2(IF Signed(T) THEN Bits(T) - 1 ELSE Bits(T)), <<1>>))
+(* bounds as literals (TLC would otherwise redo the subtraction at every use); the ASSUME ties  *)
+(* them to their definition 2^bits - 1, 2^(bits-1) - 1, -2^(bits-1)                          *)
+MaxN(T) == CASE T = "u8" -> Pos(<<2, 5, 5>>) [] T = "i8" -> Pos(<<1, 2, 7>>) [] T = "u16" -> Pos(<<6, 5, 5, 3, 5>>) [] T = "i16" -> Pos(<<3, 2, 7, 6, 7>>)
+             [] T = "u32" -> Pos(<<4, 2, 9, 4, 9, 6, 7, 2, 9, 5>>) [] T = "i32" -> Pos(<<2, 1, 4, 7, 4, 8, 3, 6, 4, 7>>)
+             [] T \in {"u64", "usize"} -> Pos(<<1, 8, 4, 4, 6, 7, 4, 4, 0, 7, 3, 7, 0, 9, 5, 5, 1, 6, 1, 5>>)
+             [] T \in {"i64", "isize"} -> Pos(<<9, 2, 2, 3, 3, 7, 2, 0, 3, 6, 8, 5, 4, 7, 7, 5, 8, 0, 7>>)
 MinN(T) == IF Signed(T) THEN Neg(Pow2(Bits(T) - 1)) ELSE NZero
+ASSUME BoundsAreWhatTheyShouldBe ==
+    \A T \in IntTypes : MaxN(T) = Pos(DSub(Pow2(IF Signed(T) THEN Bits(T) - 1 ELSE Bits(T)), <<1>>))
 InRange(n, T) == NLeq(MinN(T), n) /\ NLeq(n, MaxN(T))
 
 (* results *)
